@@ -454,8 +454,8 @@ def css_stream(ctx, ok):
                  su.Cfg('stylus', {'output.baseIndent': '\t'}), su.Cfg('sass', {'output.newline': '\r\n'}, None, None, True)]
     for i, k in enumerate(keys):                       # every built-in snippet, alone
         cases.append((k, base_cfgs[i % len(base_cfgs)]))
-    n_cfg = 24 if quick else 120
-    per_cfg = 40 if quick else 250
+    n_cfg = 32 if quick else 120
+    per_cfg = 50 if quick else 250
     cfgs = [cu.rand_cfg(rng) for _ in range(n_cfg)]
     for cfg in cfgs:
         for _ in range(per_cfg):
@@ -511,7 +511,7 @@ def css_stream(ctx, ok):
     for rec in load_corpus():
         if rec.get('component') == 'C13-css' and rec.get('abbr') is None:
             syn.append((cu.build_props(cu.snapshot_from_json(rec['props'])), su.Cfg.from_json(rec['cfg'])))
-    for _ in range(1500 if quick else 30000):
+    for _ in range(2500 if quick else 30000):
         syn.append((cu.rand_props(rng), rng.choice(cfgs)))
     syn_impl = []
     for props, cfg in syn:
@@ -549,7 +549,7 @@ def css_stream(ctx, ok):
     # ---- whole-pipeline tie: events from the abbreviation, computed inside Coq (scorer uses PrimFloat)
     if ok:
         pick = [i for i, ((abbr, cfg), r) in enumerate(zip(cases, impl)) if r[0] in ('ok', 'err')]
-        budget = 700 if quick else 6000
+        budget = 1000 if quick else 6000
         head = [i for i in pick if i < len(cases) - n_cfg * per_cfg]          # corpus, fixed, every key
         tail = [i for i in pick if i >= len(cases) - n_cfg * per_cfg]
         rng.shuffle(tail)
